@@ -7,7 +7,7 @@ function = "LegalizerBase::checkAllPlaced, getOrientation, importLegalization; A
 variants = [
   {name = "checkAllPlaced", enforce = "LegalizerBase_checkAllPlaced", defines = ["H_ALLPLACED"]},
   {name = "getOrientation", enforce = "LegalizerBase_getOrientation", defines = ["H_GETORIENT"], loop_contracts = false},
-  {name = "import", enforce = "LegalizerBase_importLegalization", defines = ["H_IMPORT"]},
+  {name = "import", safety_tier = "thorough", enforce = "LegalizerBase_importLegalization", defines = ["H_IMPORT"]},
   {name = "abacusCheck", enforce = "AbacusLegalizer_check", defines = ["H_ABACUSCHECK"], replace = ["LegalizerBase_check"]},
   {name = "evaluate", enforce = "AbacusLegalizer_evaluatePlacement", defines = ["H_EVALUATE"], replace = ["RowLegalizer_getCost", "LegalizerBase_getOrientation"]},
   {name = "run", enforce = "Legalizer_run", defines = ["H_RUN"], replace = ["LegalizerBase_computeCellOrder", "Legalizer_runTetris", "Legalizer_runAbacus", "LegalizerBase_checkAllPlaced"]},
